@@ -77,6 +77,16 @@ def gen(tier: str, seed: int) -> list[Case]:
             continue
         files = {"src/" + fk: ({"hex": fv.hex()} if isinstance(fv, bytes) else fv) for fk, fv in sfiles.items()}
         cases.append(Case(cid=f"c04-scenario-{feat}", files=files, opts=list(optsets[(k + seed) % len(optsets)]), meta={}, reach=REACH))
+    # the private name is the FIRST segment of the module path: a flat source directory (no package) with a private module,
+    # and a package whose own directory name is private
+    body = "class Shim:\n    level: int = 1\n\n    def patch_it(self, n: int) -> int: ...\n\n\ndef helper_fn(x: int) -> int: ...\n"
+    flat = {"src/flat_dir/api_mod.py": "def public_fn(x: int) -> int: ...\n", "src/flat_dir/_compat.py": body}
+    vend = {"src/_vendor_pk/__init__.py": "", "src/_vendor_pk/core.py": body, "src/_vendor_pk/sub/__init__.py": "", "src/_vendor_pk/sub/deep.py": body}
+    for name, files, src in (("flat-private-module", flat, "src/flat_dir"), ("private-root-package", vend, "src/_vendor_pk")):
+        for nc in (False, True):
+            c = Case(cid=f"c04-first-segment-{name}-{int(nc)}", files=files, opts=["-nc"] if nc else [], meta={"no_reexports": True}, reach=REACH)
+            c.src = src
+            cases.append(c)
     return cases
 
 
@@ -107,11 +117,28 @@ def make_judge(chk: Check):
             viols = []
             for rel, _m, d in ss.all_decls():
                 inside_enum = d.kind in ("enum", "variant") or (d.owner is not None and d.owner.kind == "enum")
-                if d.kind in ("class", "fun", "attr") and not inside_enum:
+                placeholder = d.kind == "class" and d.params is None and not d.members  # bodyless 'class X' written for a class of another library that a signature uses
+                if d.kind in ("class", "fun", "attr") and not inside_enum and not placeholder:
                     nm = d.pyname
                     if nm.startswith("_") and not (nm.startswith("__") and nm.endswith("__")):
                         viols.append(Viol("private-name-declared", f"model-free:{d.kind}", {"file": rel, "declaration": d.path()}))
                     chk.case_ok(f"model-free:{d.kind}", ident=(case.cid, rel, d.path()))
+            # packages without any re-export: no stub announces a Python module path with a private segment; stubs
+            # that hold nothing but enums are the recorded finding KF-C04-private-enum
+            for rel, m in ss.files.items():
+                if not case.meta.get("no_reexports"):
+                    break  # (re-exports by the __init__ of a private package are not judged: the statement allows both readings)
+                segs = m.py_module.split(".")
+                if any(x.startswith("_") for x in segs) and any(d.kind != "enum" for d in m.decls):
+                    viols.append(Viol("private-module-has-stub", "model-free:module", {"file": rel, "python_module": m.py_module, "declarations": [d.pyname for d in m.decls][:5]}))
+                chk.case_ok("model-free:module-path")
+            if case.meta.get("no_reexports"):
+                api = ss.api() or {}
+                for key in ("classes", "functions", "attributes"):
+                    for e in api.get(key, []):
+                        if any(x.startswith("_") for x in e["id"].split("/")) and e.get("is_public"):
+                            viols.append(Viol("json-is-public", f"model-free:{key}", {"id": e["id"], "json": True, "expected": False}))
+                        chk.case_ok(f"model-free:json:{key}")
             return viols
         pubs = pg.publicity(pkg)
         viols = st.judge_privacy(chk, pkg, ss, pubs, ss.api(), text_search=not case.meta.get("declarations_only"))
